@@ -974,7 +974,7 @@ func (ft *FuncTr) run() error {
 		}
 	}
 	// own modifies (declared) for frame checking
-	if ft.c.ModDeclared {
+	if ft.c.ModDeclared && !ft.c.ModAll {
 		envM := ft.newEnv(ft.init)
 		ms, err := ft.h.resolveMods(envM, ft.w.pkgOfFunc(fn), ft.c.Modifies)
 		if err != nil {
